@@ -5,17 +5,72 @@
 package wire
 
 import (
+	"encoding/json"
+	"os"
+	"sync"
+
 	"verifsim/harness"
 	"verifsim/verifrt"
 )
 
+// siteFile maps a yield site to the index of the woven file it is in (from the
+// site table the weave tool wrote at build time; the runner passes its path).
+var (
+	siteFileOnce sync.Once
+	siteFile     map[int]int
+	wovenFiles   []string
+)
+
+func loadSites() {
+	siteFile = map[int]int{}
+	b, err := os.ReadFile(os.Getenv("VERIF_WEAVE_JSON"))
+	if err != nil {
+		return
+	}
+	var t struct {
+		Sites []struct {
+			ID   int    `json:"id"`
+			File string `json:"file"`
+		} `json:"sites"`
+	}
+	if json.Unmarshal(b, &t) != nil {
+		return
+	}
+	idx := map[string]int{}
+	for _, s := range t.Sites {
+		i, ok := idx[s.File]
+		if !ok {
+			i = len(wovenFiles)
+			idx[s.File] = i
+			wovenFiles = append(wovenFiles, s.File)
+		}
+		siteFile[s.ID] = i
+	}
+}
+
 func init() {
 	wovenBuild = true
 	activateWoven = func(c *harness.Ctx, label string) {
-		// swarm: the density of live preemption points varies per run
+		siteFileOnce.Do(loadSites)
+		// swarm: the density of live preemption points varies per run ...
 		k := []int{1, 1, 3, 8, 32}[c.T.Draw(label+".yield-density", 5)]
 		salt := c.T.Draw(label+".yield-salt", 1<<16)
+		// ... and so does their focus: in half of the runs every site of one
+		// woven file is live and the rest are sparse, which concentrates the
+		// interleavings on that component (a two-statement window in a small
+		// file is otherwise a small fraction of all preemption points)
+		focus := -1
+		if len(wovenFiles) > 0 && c.T.Draw(label+".yield-focus", 2) == 1 {
+			focus = c.T.Draw(label+".yield-focus-file", len(wovenFiles))
+			if k < 8 {
+				k = 8
+			}
+			c.Info["woven_yield_focus"] = wovenFiles[focus]
+		}
 		c.S.YieldOn = func(site int) bool {
+			if focus >= 0 && siteFile[site] == focus {
+				return true
+			}
 			x := uint32(site)*2654435761 + uint32(salt)*40503
 			x ^= x >> 15
 			return int(x%uint32(k)) == 0
